@@ -81,7 +81,8 @@ def run_shard_child(pid, tier, seed, shard, scratch, timeout):
     with open(inp, "w") as f:
         json.dump({"prop": pid, "tier": tier, "seed": seed, "shard": shard}, f)
     # pyopt: the same shard in an interpreter started with -O (assert statements and `if __debug__` blocks are not compiled)
-    # and -W error (every warning is an exception, as under pytest's filterwarnings=error or PYTHONWARNINGS=error)
+    # and -W error (every warning is an exception, as under pytest's filterwarnings=error or PYTHONWARNINGS=error), with the
+    # root logger at DEBUG (shard_main)
     cmd = [sys.executable, "-B"] + (PYOPT_FLAGS if shard.get("pyopt") else []) + ["-m", "vmon.cli", "--shard-run", inp, outp]
     t0 = time.time()
     try:
@@ -128,6 +129,11 @@ def shard_main(inp, outp):
         if __debug__:
             ctx.inconclusive_because("shard marked pyopt but the interpreter is not running with -O")
         ctx.count("shards_run_with_python_O")
+        # the application's side of the configuration: debug logging switched on for everything (records go nowhere)
+        import logging
+
+        logging.basicConfig(level=logging.DEBUG, handlers=[logging.NullHandler()])
+        logging.getLogger().setLevel(logging.DEBUG)
     try:
         mod.run(spec["shard"], ctx)
     except repo.RepoUnusable as e:
